@@ -10,6 +10,7 @@
    the harness oracle, not proved here.  Hence every theorem below carries the suffix _partial where it
    stands for a part of the property, and props/C18.json says so. *)
 From OrdV Require Import Base.Prelude Generated Server.Content Server.Api Proofs.Content_proofs Proofs.Api_proofs.
+From OrdV Require Index.Inscr Proofs.Inscr_c04 Proofs.Inscr_c18.
 
 (* pages: position j of page i is position i*size+j of the stored list; concatenating pages 0..k-1 gives
    the first k*size elements (the whole list once k*size >= length); [more] holds exactly when a later
@@ -99,6 +100,28 @@ Proof.
   - intros H o x v. apply output_view_exact. assumption.
 Qed.
 
+(* ... and those two table invariants hold for the tables read off any state of the inscription indexer model
+   (Index/Inscr.v, C03-C07): Inscr_c18.tables_of projects a model state onto [tables] the way the harness
+   projects verif_dump() (inscriptions = sequence numbers, outpoints = indexes into the UTXO keys).
+   parents_consistent: for every chain the model indexes (from C07_tables, no validity assumption);
+   outputs_consistent: for chains with pairwise distinct non-zero txids and coinbase-first blocks (from C04's census).
+   So for model tables the view consistency holds without hypotheses (Inscr_c18.views_statement spelled out there).
+   Still partial: that the real dump projected by the server harness equals tables_of of the model state is tied
+   by the two correspondence runs (C03-C07: model state = dump; C18: handlers = functions of the projected dump),
+   not by a theorem. *)
+Theorem C18_model_tables_consistent_partial : forall cfg c st,
+  Inscr.index_chain cfg 0 c Inscr.empty_state = Ok st ->
+  parents_consistent (Inscr_c18.tables_of cfg st) /\
+  (Inscr_c04.chain_ok c -> outputs_consistent (Inscr_c18.tables_of cfg st)).
+Proof.
+  intros cfg c st H. split.
+  - eapply Inscr_c18.model_parents_consistent; eauto.
+  - intro OK. eapply Inscr_c18.model_outputs_consistent; eauto.
+Qed.
+
+Theorem C18_model_views_consistent_partial : Inscr_c18.views_statement.
+Proof. exact Inscr_c18.model_views_consistent. Qed.
+
 (* the inscription view reports the stored entry; Lost is added exactly for the null outpoint, value is
    the value of the output the satpoint names (none for unbound / lost), previous / next are the
    neighbouring sequence numbers, at most four children and parents are shown *)
@@ -125,3 +148,5 @@ Proof. vm_compute. repeat split. Qed.
 Print Assumptions C18_pages_partial.
 Print Assumptions C18_paging_implemented_partial.
 Print Assumptions C18_views_consistent_partial.
+Print Assumptions C18_model_tables_consistent_partial.
+Print Assumptions C18_model_views_consistent_partial.
